@@ -69,6 +69,12 @@ Proof. exact same_name_other_project. Qed.
 Theorem C19_display_injective : forall a b, valid_id a -> valid_id b -> display a = display b -> a = b.
 Proof. exact display_inj_valid. Qed.
 
+(* "uniquely": with pairwise distinct project names (FX7, C14) a project name means one project, whatever the order of the
+   hash map the projects are kept in *)
+Theorem C19_unique_project : forall cfg pn dp,
+  NoDup (map fst (ic_projects cfg)) -> In (pn, dp) (ic_projects cfg) -> lookup_project cfg pn = Some dp.
+Proof. exact unique_project. Qed.
+
 (* non-vacuity: root "p" with targets t, u; imported "q" with target t.  Accepted names, both spellings of p::t,
    and the two different targets called t. *)
 Definition xp : bytes := [112].
